@@ -81,6 +81,9 @@ def _case_ab(desc):
     case, snaps = _sim.build(d)
     case["strategies"][0]["name"] = "A"
     case["strategies"][1]["name"] = "B"
+    if desc["idx"] % 5 == 1 and not desc.get("directed"):
+        # resting orders are also filled from the sizes on offer (non-default): what one strategy takes is not taken from the other
+        case["config"] = dict(case.get("config") or {}, simulation_available_prices=True)
     if desc["idx"] % 3 == 2:
         # not sharing clients: B trades through a second client
         case["clients"] = [{"username": "sim0"}, {"username": "sim1"}]
